@@ -68,6 +68,7 @@ type progGen struct {
 	ramOnly bool   // pointers only into writable plain memory (no ROM, no FEA0-FEFF, no IF)
 	cartRAM bool   // also point into the cartridge RAM window (free-running workloads only)
 	onlyOAM bool   // pointers only into FE00-FEFF (C17)
+	noOAM   bool   // no pointers into FE00-FEFF (programs that run while a DMA transfer owns OAM)
 	preAt   int    // offset at which the last preOp was emitted
 }
 
@@ -86,6 +87,9 @@ func (g *progGen) pick(span int) uint16 {
 	}
 	for {
 		a := pickAddr(g.r, span)
+		if g.noOAM && a >= 0xfe00-uint16(span) && a <= 0xfeff {
+			continue
+		}
 		if !g.ramOnly {
 			return a
 		}
@@ -350,6 +354,10 @@ type lockstep struct {
 	mode2Seen  bool             // the reference was in mode 2 at some boundary of the instruction in flight
 
 	realWrites []dmgref.Access // bus writes of the real CPU during the instruction in flight (hook H4)
+	// preroll: the CPU spins in a JR loop in high RAM (in lock step like everything else) until this
+	// boundary, then the program proper starts; places a program at a chosen phase of the frame loop
+	prerollUntil uint64
+	prerollPC    uint16
 
 	// per-instruction callback: return false to stop the run
 	onInstr func(l *lockstep, realCycles int, mism []lsMismatch) bool
@@ -462,7 +470,7 @@ func newLockstep(sc *engine.Scenario, res *engine.Result) *lockstep {
 	}
 	base := uint16(sc.P("base", lsCodeROM))
 	prog := engine.UnHex(sc.Str("prog"))
-	if base != lsCodeROM {
+	if base >= 0x8000 {
 		for i, b := range prog {
 			l.pokeBoth(base+uint16(i), b)
 		}
@@ -483,6 +491,13 @@ func newLockstep(sc *engine.Scenario, res *engine.Result) *lockstep {
 		l.ref.IME = true
 	} else {
 		m.IRQ.Disable()
+	}
+	if pr := sc.P("preroll", 0); pr > 0 {
+		l.pokeBoth(0xfffc, 0x18)
+		l.pokeBoth(0xfffd, 0xfe)
+		l.prerollUntil, l.prerollPC = uint64(pr), base
+		regs.PC = 0xfffc
+		m.CPU.VerifSetRegs(regs)
 	}
 	for _, ev := range sc.Events {
 		if ev.K == "irq_h" {
@@ -721,7 +736,19 @@ func (l *lockstep) finishInstr() bool {
 	l.dg.Byte(uint8(realCycles))
 	l.instrs++
 	ok := true
-	if l.onInstr != nil {
+	if l.prerollUntil != 0 {
+		// the pre-roll loop is judged like any other code (OpPC fffc tells the callbacks apart)
+		if l.onInstr != nil {
+			ok = l.onInstr(l, realCycles, mism)
+		}
+		if m.N >= l.prerollUntil {
+			rg := m.CPU.VerifGetRegs()
+			rg.PC = l.prerollPC
+			m.CPU.VerifSetRegs(rg)
+			l.prerollUntil = 0
+			l.res.Probe("program_started_after_preroll")
+		}
+	} else if l.onInstr != nil {
 		ok = l.onInstr(l, realCycles, mism)
 	}
 	l.k = 0
